@@ -74,6 +74,46 @@ theorem step_clone (rf : Refuse) (w w' : World) (d s : Nat) (r : Handle)
     exact ⟨rfl, h2, h3⟩
   · simp at h
 
+/-- releasing a handle never calls `alloc`/`realloc`: the request counter is unchanged -/
+theorem releaseRepr_reqs (hp hp' : Heap) (r : Handle) (h : releaseRepr hp r = .ok hp') : hp'.reqs = hp.reqs := by
+  cases r with
+  | inl raw => simp only [releaseRepr, Except.ok.injEq] at h; subst h; rfl
+  | stat s l => simp only [releaseRepr, Except.ok.injEq] at h; subst h; rfl
+  | heap a l =>
+    simp only [releaseRepr, Heap.release] at h
+    split at h
+    · split at h
+      · cases h
+      · split at h
+        · split at h
+          · simp only [Except.ok.injEq] at h; subst h; rfl
+          · cases h
+        · simp only [Except.ok.injEq] at h; subst h; rfl
+    · cases h
+    · cases h
+
+/-- `clone_from`: the destination receives the source's two words (same pointer, same length) and
+no allocator request is made, whatever the two lengths are; the old value is released -/
+theorem step_cloneFrom (rf : Refuse) (w w' : World) (d s : Nat) (old r : Handle) (hds : d ≠ s)
+    (hd : w.get d = some old) (hs : w.get s = some r) (h : step rf w (.cloneFrom d s) = (w', .ok .unit)) :
+    w'.get d = some r ∧ w'.heap.reqs = w.heap.reqs := by
+  simp only [step, hds, if_false, hd, hs] at h
+  cases hc : shallowClone w.heap r with
+  | error u => rw [hc] at h; simp at h
+  | ok p =>
+    obtain ⟨hp, r'⟩ := p
+    rw [hc] at h
+    have ⟨h1, h2, _, _⟩ := shallowClone_shares _ _ _ _ hc
+    subst h1
+    simp only [] at h
+    cases hr : releaseRepr hp old with
+    | error u => rw [hr] at h; simp at h
+    | ok hp2 =>
+      rw [hr] at h
+      simp only [Prod.mk.injEq] at h
+      obtain ⟨rfl, _⟩ := h
+      exact ⟨World.get_put_self _ _ _ _, by rw [← h2]; exact releaseRepr_reqs _ _ _ hr⟩
+
 theorem to_lean_string_is_clone : ("LeanString", "return Ok(s.clone())") ∈ Gen.matchTypeArms := by decide
 
 theorem clone_bodies :
